@@ -1,5 +1,175 @@
+//! dmnsim - deterministic simulation with fault injection for dmntk.rs.
+//!
+//!   dmnsim run <ID> --tier quick|thorough [--runs N] [--jobs J] [--max-wall SECONDS] [--no-evidence]
+//!   dmnsim replay <file>
+//!   dmnsim selftest determinism [ID...] [--runs N]
+//!   dmnsim child ... / exec-plan ...      (internal)
+
+mod c17;
+mod core;
+mod driver;
+mod models;
+mod rng;
+
+use crate::core::{Sim, Tier};
+use std::collections::BTreeSet;
+use std::path::PathBuf;
+use std::time::Duration;
+
+fn lookup(id: &str) -> Option<&'static dyn Sim> {
+  match id {
+    "C17" => Some(&c17::C17),
+    _ => None,
+  }
+}
+
+const ALL: [&str; 1] = ["C17"];
+
+fn arg_value(args: &[String], name: &str) -> Option<String> {
+  args.iter().position(|a| a == name).and_then(|i| args.get(i + 1)).cloned()
+}
+
+fn env_u64(name: &str, default: u64) -> u64 {
+  std::env::var(name).ok().and_then(|s| s.parse::<u64>().ok()).unwrap_or(default)
+}
+
 fn main() {
-  let ws = dmntk_workspace::Workspace::new(None);
-  let data = dmntk_server::VerifAppData::new(ws);
-  println!("{:?} {}", data.snapshot(), data.is_poisoned());
+  let args: Vec<String> = std::env::args().skip(1).collect();
+  let code = real_main(&args);
+  std::process::exit(code);
+}
+
+fn real_main(args: &[String]) -> i32 {
+  let cmd = args.first().map(|s| s.as_str()).unwrap_or("");
+  match cmd {
+    "run" => {
+      let id = args.get(1).cloned().unwrap_or_default();
+      let sim = match lookup(&id) {
+        Some(s) => s,
+        None => {
+          eprintln!("dmnsim: no simulator for property {}", id);
+          return 2;
+        }
+      };
+      let tier = arg_value(args, "--tier").and_then(|t| Tier::parse(&t)).unwrap_or(Tier::Quick);
+      let opt = driver::BatchOptions {
+        tier,
+        seed: env_u64("VERIF_SEED", 20260924),
+        jobs: arg_value(args, "--jobs").and_then(|s| s.parse().ok()).unwrap_or_else(|| env_u64("VERIF_JOBS", 16) as usize),
+        runs_override: arg_value(args, "--runs").and_then(|s| s.parse().ok()),
+        max_wall: Duration::from_secs(arg_value(args, "--max-wall").and_then(|s| s.parse().ok()).unwrap_or(match tier {
+          Tier::Quick => 1_200,
+          Tier::Thorough => 6 * 3_600,
+        })),
+        want_hashes: false,
+        write_evidence: !args.iter().any(|a| a == "--no-evidence"),
+      };
+      driver::run_check(sim, &opt)
+    }
+    "replay" => {
+      let file = PathBuf::from(args.get(1).cloned().unwrap_or_default());
+      driver::replay_main(lookup, &file)
+    }
+    "child" => {
+      let id = args.get(1).cloned().unwrap_or_default();
+      let sim = match lookup(&id) {
+        Some(s) => s,
+        None => return 2,
+      };
+      let tier = arg_value(args, "--tier").and_then(|t| Tier::parse(&t)).unwrap_or(Tier::Quick);
+      let seed = arg_value(args, "--seed").and_then(|s| s.parse().ok()).unwrap_or(0);
+      let from = arg_value(args, "--from").and_then(|s| s.parse().ok()).unwrap_or(0);
+      let to = arg_value(args, "--to").and_then(|s| s.parse().ok()).unwrap_or(0);
+      let skip: BTreeSet<u64> = arg_value(args, "--skip").map(|s| s.split(',').filter_map(|x| x.parse().ok()).collect()).unwrap_or_default();
+      let hashes = args.iter().any(|a| a == "--hashes");
+      driver::child_main(sim, tier, seed, from, to, &skip, hashes)
+    }
+    "exec-plan" => {
+      let id = args.get(1).cloned().unwrap_or_default();
+      let sim = match lookup(&id) {
+        Some(s) => s,
+        None => return 2,
+      };
+      let file = PathBuf::from(args.get(2).cloned().unwrap_or_default());
+      let mode = args.get(3).cloned().unwrap_or_else(|| "fresh".to_string());
+      let reseeds = args.get(4).and_then(|s| s.parse().ok()).unwrap_or(0);
+      driver::exec_plan_main(sim, &file, &mode, reseeds)
+    }
+    "debug-facts" => {
+      debug_facts();
+      0
+    }
+    "selftest" => {
+      let what = args.get(1).map(|s| s.as_str()).unwrap_or("");
+      match what {
+        "determinism" => {
+          let ids: Vec<&str> = args[2..].iter().filter(|a| lookup(a).is_some()).map(|s| s.as_str()).collect();
+          let ids: Vec<&str> = if ids.is_empty() { ALL.to_vec() } else { ids };
+          let runs = arg_value(args, "--runs").and_then(|s| s.parse().ok()).unwrap_or(2_000u64);
+          let seed = env_u64("VERIF_SEED", 20260924);
+          let mut bad = 0;
+          for id in ids {
+            let sim = lookup(id).unwrap();
+            let mut reference: Option<std::collections::BTreeMap<u64, u64>> = None;
+            for (pass, jobs) in [(0, 1usize), (1, 4), (2, 16), (3, 16)] {
+              let opt = driver::BatchOptions {
+                tier: Tier::Quick,
+                seed,
+                jobs,
+                runs_override: Some(runs),
+                max_wall: Duration::from_secs(3_600),
+                want_hashes: true,
+                write_evidence: false,
+              };
+              let summary = driver::run_batch_raw(sim, &opt);
+              let mut diff = 0;
+              if let Some(r) = &reference {
+                for (i, h) in &summary.hashes {
+                  if r.get(i) != Some(h) {
+                    diff += 1;
+                  }
+                }
+                if r.len() != summary.hashes.len() {
+                  diff += 1;
+                }
+              } else {
+                reference = Some(summary.hashes.clone());
+              }
+              println!("determinism {} pass {} jobs={} runs={} hashes={} differing={}", id, pass, jobs, summary.runs, summary.hashes.len(), diff);
+              bad += diff;
+            }
+          }
+          if bad == 0 {
+            println!("determinism: all event-log hashes equal across passes and worker counts");
+            0
+          } else {
+            println!("determinism: {} differing event-log hash(es)", bad);
+            2
+          }
+        }
+        _ => {
+          eprintln!("dmnsim selftest determinism [ID...] [--runs N]");
+          2
+        }
+      }
+    }
+    _ => {
+      eprintln!("usage: dmnsim run <ID> --tier quick|thorough | replay <file> | selftest determinism");
+      2
+    }
+  }
+}
+
+#[allow(dead_code)]
+pub fn debug_facts() {
+  let models = models::alphabet();
+  for m in &models {
+    match dmntk_model::parse(&m.xml) {
+      Ok(defs) => match dmntk_model_evaluator::ModelEvaluator::new(&defs) {
+        Ok(me) => println!("{} builds: d={}", m.key, me.evaluate_invocable("d", &dmntk_feel::context::FeelContext::default())),
+        Err(e) => println!("{} build error: {}", m.key, e),
+      },
+      Err(e) => println!("{} parse error: {}", m.key, e),
+    }
+  }
 }
